@@ -3,7 +3,7 @@ import AkVerif.Lemmas.LLFactTop
 /-!
 `C01.factorize_ok`, assembled: for the parser built by `construct`, the factorised dictionary
 (with or without the smart undo) relates to the user's dictionary as `FactRelD` says, and its
-keys are duplicate-free — provided no right-hand side of the input names a `__` symbol.
+keys are duplicate-free (the constructor's assertions exclude `__` names in keys and right-hand sides).
 -/
 set_option linter.unusedSectionVars false
 namespace LL
@@ -12,15 +12,15 @@ open Ak
 theorem userWF_nil : UserWF ([] : Prods Sym) :=
   ⟨by simp [pkeys], by simp [pkeys], by simp [psyms]⟩
 
-theorem factRelD_of_built {inp : CtorIn} {P : Parser} (hB : Built inp P) (hrhs : NoDunderRhs inp.prods) :
+theorem factRelD_of_built {inp : CtorIn} {P : Parser} (hB : Built inp P) :
     FactRelD P.userProds P.prods P.suffix ∧ (P.prods.map (·.1)).Nodup := by
-  obtain ⟨hU, _⟩ := createProds_wf inp.prods 0 [] P.userProds hB.hU hrhs userWF_nil
+  obtain ⟨hU, _⟩ := createProds_wf inp.prods 0 [] P.userProds hB.hU userWF_nil
   exact factRelD_factorize hU (terms_path_nil hB.hD) hB.hF
 
 /-- the start symbol is one of the user's symbols when it is a key of `productions` -/
-theorem start_user_of_built {inp : CtorIn} {P : Parser} (hB : Built inp P) (hrhs : NoDunderRhs inp.prods)
+theorem start_user_of_built {inp : CtorIn} {P : Parser} (hB : Built inp P)
     (hs : inp.start ∈ inp.prods.map (·.1)) : P.start ∈ pkeys P.userProds := by
-  obtain ⟨_, hk⟩ := createProds_wf inp.prods 0 [] P.userProds hB.hU hrhs userWF_nil
+  obtain ⟨_, hk, _⟩ := createProds_wf inp.prods 0 [] P.userProds hB.hU userWF_nil
   rw [hk, hB.hstart]
   simp only [pkeys, List.map_nil, List.nil_append, List.mem_map]
   obtain ⟨e, he, hes⟩ := List.mem_map.1 hs
